@@ -34,6 +34,17 @@ def register(claim):
           "Partial: grammar unambiguity is assumed (ISO), bison acceptance and template substitution are explored per run, not proved; volatile, "
           "member pointers, attributes, trailing return types are outside the model. Two known findings (class name + parenthesised declarator; volatile dropped).",
           "Lean 4 proof (printer soundness w.r.t. the declarator grammar, unroll = ISO meaning) + differential correspondence + g++ oracle", "DESIGN.md §5 C06")
+    claim("C10",
+          "Lean 4 theorems over a model of cppStructType.cxx's trait code: get_virtual_funcs computes exactly the final overriders of [class.virtual] "
+          "for EVERY hierarchy without virtual bases (c10_vfuncs_spec, mutual induction over classes and base lists), hence is_abstract / polymorphic "
+          "have the C++ meaning (c10_abstract_spec, c10_polymorphic_spec); the public constructibility queries refuse abstract classes, so no "
+          "implicit constructor is exported for one (c10_no_ctor_for_abstract); a user-provided destructor alone decides destructibility; a deleted "
+          "member is never usable. The model (default/copy constructibility, destructibility with the min_vis recursion, const/reference/class "
+          "members, defaulted-but-deleted members) is tied to the real code on generated hierarchies via parse_file -p, and g++ (std::is_abstract, "
+          "is_destructible, SFINAE `new T()` / `new T(const T&)`) judges every trait and every implicit constructor/destructor interrogate exports.",
+          "Partial: agreement of the constructibility recursion with the ISO rules is decided per run by g++, not proved; shared virtual bases are "
+          "outside the theorem (known finding: virtual-base diamond judged abstract) and, for constructibility, outside the g++ comparison.",
+          "Lean 4 proof (final-overrider characterisation by mutual induction) + differential correspondence + g++ oracle", "DESIGN.md §5 C10")
     claim("C20",
           "Lean 4 theorems: guarded accessors return the neutral value off-range and the entry in range; every lookup answers from the current maps "
           "for every sequence of requests/lookups/queries (cache invariant by induction over operations) and is sound/absent/exact; the unique-name "
